@@ -62,7 +62,7 @@ func main() {
 		}
 	}
 	c := &checkCtx{id: id, tier: tier, seed: seed, rng: newRng(seed), start: time.Now(),
-		distinct: map[string]bool{}, level: "proof", replaySig: replaySig}
+		distinct: map[string]bool{}, level: "proof", replaySig: replaySig, replayPath: replay}
 	if err := buildTools(); err != nil {
 		c.addFinding(finding{Signature: "build-failed", Desc: err.Error(), NoInput: true,
 			Theorem: "go build of /repo", Replay: map[string]any{"cmd": "go build ./cmd/lox"}})
